@@ -1,7 +1,8 @@
 import IncrVerif.Proofs.Observers
 /-!
-# Observer lifecycle over whole histories, part 1: the relations `Life` and `Dis`, and `Pres Dis m`
-for every function of the model that can run between the two observer phases of a stabilisation
+# Observer lifecycle over whole histories, part 1: the relations `Life` and `Dis`, and `Pres R m`
+— for every relation `R` that only looks at the observer fields (`ObsLocal R`) — for every function of
+the model that does not itself touch an observer record
 
 * `lifeLe a b`: the lifecycle order `created < inUse < disallowed < unlinked` (= reflexive-transitive
   closure of the four lifecycle edges, `lifeLe_iff_path`).
@@ -12,9 +13,13 @@ for every function of the model that can run between the two observer phases of 
   (created ↦ unlinked, in use ↦ disallowed); its handlers keep their (token, hid, createdAt) — or were
   cleared by created ↦ unlinked; `newObservers` unchanged; `disallowedObservers` grew by exactly the
   observers that went in use ↦ disallowed, each queued once.
-* `Pres Dis m` (calculus of `Proofs/Observers.lean`) for every function reachable from `recompute`,
-  `drainHeap`, `runAll`, `stabiliseEnd`, the expert API, node construction, var writes and
-  `runEffects` (arbitrary user effects).
+* `ObsLocal R`: `R` is a preorder that relates `s` to `s'` whenever `observers`, `newObservers`,
+  `disallowedObservers`, `nextToken` and `log` are unchanged, and across the logging of any event that
+  is not a handler notification.  `Pres R m` (calculus of `Proofs/Observers.lean`) for every such `R` and
+  every function of the heaps, height adjustment, necessity and invalidation cascades, the expert API,
+  node construction (memoised calls, map operators, per-key operators) and var writes.  Instances:
+  `Dis` here, `Same` (part 3), `MoveIn`, `SameH` (part 4), `SameK` (part 7), `Mute tok` (part 9),
+  `TokStep` (part 10).
 -/
 namespace IncrVerif.Proofs.Life
 open IncrVerif.Engine IncrVerif.Proofs.Obs
@@ -269,21 +274,32 @@ theorem Dis.modObs (s : State) (o : Nat) (f : ObsRec → ObsRec)
 
 /-- relations that only look at the three observer fields: a step that leaves `observers`,
 `newObservers` and `disallowedObservers` alone is related.  The decomposition below is carried out once
-for all such relations (`Dis`, and `Same` of part 3). -/
+for all such relations (`Dis`, `Same` of part 3, `MoveIn` of part 4, `Mute` of part 9; the last one also
+looks at `nextToken` and at the handler notifications in `log`). -/
 class ObsLocal (R : State → State → Prop) : Prop extends PreOrd R where
   of_eq : ∀ s s' : State, s'.observers = s.observers → s'.newObservers = s.newObservers →
-    s'.disallowedObservers = s.disallowedObservers → R s s'
+    s'.disallowedObservers = s.disallowedObservers → s'.nextToken = s.nextToken → s'.log = s.log →
+    R s s'
+  /-- logging anything but a handler notification -/
+  logEv : ∀ (e : Event) (s : State), (∀ t u, e ≠ .notif t u) → R s { s with log := e :: s.log }
 
-instance : ObsLocal Dis := ⟨fun _ _ => Dis.of_eq⟩
+instance : ObsLocal Dis where
+  of_eq _ _ h1 h2 h3 _ _ := Dis.of_eq h1 h2 h3
+  logEv _ _ _ := Dis.of_eq rfl rfl rfl
 
 /-! ## the decomposition tactic -/
 
 syntax "lleaf" : tactic
 macro_rules | `(tactic| lleaf) => `(tactic| fail "no leaf")
 
+/-- leaves that must be tried before a bind is taken apart -/
+syntax "lspecial" : tactic
+macro_rules | `(tactic| lspecial) => `(tactic| fail "no special leaf")
+
 macro "lstep" : tactic => `(tactic| first
   | with_reducible apply Pres.pure | with_reducible apply Pres.get | with_reducible apply Pres.panic
   | with_reducible apply Pres.throw
+  | lspecial
   | with_reducible apply Pres.bind | with_reducible apply Pres.map | with_reducible apply Pres.mapM
   | with_reducible apply Pres.forIn
   | with_reducible apply Pres.getNode | with_reducible apply Pres.dassert
@@ -309,7 +325,7 @@ variable {R : State → State → Prop} [ObsLocal R]
 
 macro_rules
   | `(tactic| lleaf) =>
-    `(tactic| ((with_reducible apply Pres.modify); intro _; exact ObsLocal.of_eq _ _ rfl rfl rfl))
+    `(tactic| ((with_reducible apply Pres.modify); intro _; exact ObsLocal.of_eq _ _ rfl rfl rfl rfl rfl))
 
 theorem PresD.modNode (n f) : Pres R (modNode n f) := by unfold Engine.modNode; lpres
 life_leaf PresD.modNode
@@ -321,8 +337,11 @@ theorem PresD.modExpert (n f) : Pres R (modExpert n f) := by unfold Engine.modEx
 life_leaf PresD.modExpert
 theorem PresD.bumpCounter (f) : Pres R (bumpCounter f) := by unfold Engine.bumpCounter; lpres
 life_leaf PresD.bumpCounter
-theorem PresD.logEv (e) : Pres R (logEv e) := by unfold Engine.logEv; lpres
-life_leaf PresD.logEv
+theorem PresD.logEv (e : Event) (he : ∀ t u, e ≠ .notif t u) : Pres R (logEv e) := by
+  unfold Engine.logEv; exact Pres.modify fun s => ObsLocal.logEv e s he
+macro_rules
+  | `(tactic| lleaf) =>
+    `(tactic| ((with_reducible apply PresD.logEv); (intro _ _ h; cases h; done)))
 theorem PresD.tick : Pres R tick := by unfold Engine.tick; lpres
 life_leaf PresD.tick
 
